@@ -632,6 +632,99 @@ def rule_arg1(ctx: Ctx) -> RuleResult:
     return r
 
 
+DROPPING_OPS = ("distinct", "distinct_until_changed", "filter", "filter_indexed", "take", "take_last", "take_last_buffer", "take_while",
+                "take_while_indexed", "take_until", "take_until_with_time", "take_with_time", "take_last_with_time", "skip", "skip_last",
+                "skip_while", "skip_while_indexed", "skip_until", "skip_until_with_time", "skip_with_time", "skip_last_with_time", "first",
+                "first_or_default", "last", "last_or_default", "element_at", "element_at_or_default", "single", "single_or_default",
+                "debounce", "throttle_first", "throttle_with_timeout", "throttle_with_mapper", "sample", "ignore_elements", "find",
+                "find_index", "slice")
+
+
+def rule_src1(ctx: Ctx) -> RuleResult:
+    """SRC-1: an operator handles every item of the source it was applied to.  A subscribe function that subscribes, instead of the
+    source, a pipeline built from it with an RxPY operator that drops items (distinct_until_changed, filter, take, skip, sample,
+    debounce ...) never sees the dropped items: whatever the handlers do right, those items are missing from the output."""
+    r = RuleResult("SRC-1", "an operator subscribes the source it was applied to, not a pipeline over it that drops items (distinct_until_changed, "
+                            "filter, take / skip, sample, debounce, ...)")
+    prog = ctx.program
+    from .ag import _single_assignments
+    for site in ctx.all_sites:
+        rel = site.anchor_rel
+        if ctx.scope is not None and rel not in ctx.scope:
+            continue
+        m = site.module
+        for s_ in site.subscriptions:
+            r.instances += 1
+            recv = s_.call.func.value if isinstance(s_.call.func, ast.Attribute) else None
+            seen = set()
+            while isinstance(recv, ast.Name) and recv.id not in seen:
+                seen.add(recv.id)
+                env = _single_assignments(m, s_.call)
+                if recv.id not in env:
+                    break
+                recv = env[recv.id]
+            drops = []
+            if recv is not None:
+                for c in ast.walk(recv):
+                    if isinstance(c, ast.Call):
+                        dn = dotted_name(c.func)
+                        ref = prog.resolve_dotted(m, dn) if dn else None
+                        if ref and ref[0] in ("ext", "unknown") and isinstance(ref[1], str) and ref[1].startswith("rx.operators.") \
+                                and ref[1].split(".")[-1] in DROPPING_OPS:
+                            drops.append((c, ref[1]))
+            r.ob(not drops, lambda drops=drops, site=site, s_=s_: Finding(
+                "SRC-1", "%s{%s}" % (site.name, drops[0][1].split(".")[-1]), m.where(drops[0][0]),
+                "%s subscribes %s, a pipeline over its source that goes through %s (%s): the items that operator drops never reach the handlers, so "
+                "they are missing from what this operator writes or emits whatever its arguments" % (
+                    site.short, ast.unparse(s_.call.func.value)[:40], drops[0][1], ast.unparse(drops[0][0])[:60])))
+    r.require_instances(1)
+    return r
+
+
+def rule_eq3(ctx: Ctx) -> RuleResult:
+    """EQ-3: a parameter is never compared with True / False by value.  `count in (None, False)`, `count == False`: 0 and 0.0 are equal
+    to False (1 and 1.0 to True), so a legitimate zero -- take(0), a timeout of 0, a size of 0 -- is taken for 'switched off'."""
+    r = RuleResult("EQ-3", "a parameter is not compared with True / False by == or `in`: 0 == False and 1 == True, so a legitimate 0 / 1 would be taken for the flag")
+    prog = ctx.program
+    for rel, m in sorted(prog.by_relpath.items()):
+        if (ctx.scope is not None and rel not in ctx.scope) or not rel.startswith("rxsci/"):
+            continue
+        r.instances += 1
+        for n in ast.walk(m.tree):
+            if not isinstance(n, ast.Compare) or len(n.ops) != 1 or not isinstance(n.left, ast.Name):
+                continue
+            # the name is a parameter of an enclosing function (what the caller configured), not a lambda's item
+            owner = None
+            for f in _enclosing_chain(m, n):
+                scx = m.scopes.get(f)
+                if scx is not None and n.left.id in scx.params:
+                    owner = f
+                    break
+                if scx is not None and n.left.id in scx.locals:
+                    break
+            if owner is None or isinstance(owner, ast.Lambda):
+                continue
+            op, right = n.ops[0], n.comparators[0]
+            hit = None
+            if isinstance(op, (ast.In, ast.NotIn)) and isinstance(right, (ast.Tuple, ast.List, ast.Set)):
+                bools = [e for e in right.elts if isinstance(e, ast.Constant) and isinstance(e.value, bool)]
+                nums = [e for e in right.elts if isinstance(e, ast.Constant) and isinstance(e.value, (int, float)) and not isinstance(e.value, bool)]
+                if bools and not nums:
+                    hit = bools[0].value
+            elif isinstance(op, (ast.Eq, ast.NotEq)) and isinstance(right, ast.Constant) and isinstance(right.value, bool):
+                hit = right.value
+            if hit is None:
+                r.ob(True)
+                continue
+            r.ob(False, lambda n=n, hit=hit, owner=owner: Finding(
+                "EQ-3", "%s::%s{%s}" % (rel, m.scopes[owner].qualname if owner in m.scopes else owner.name, n.left.id), m.where(n),
+                "'%s' compares the parameter %s with %s by value: %s is equal to %s, so a caller's legitimate %s takes the branch meant for the flag; "
+                "a flag is told apart with `is`" % (ast.unparse(n), n.left.id, hit, "0 (and 0.0)" if hit is False else "1 (and 1.0)", hit, 0 if hit is False else 1)))
+        r.ob(True)
+    r.require_instances(1)
+    return r
+
+
 def _public_functions(prog):
     """{(module path, function name)} of the functions a user reaches through the packages: names a package __init__ imports from a
     module, and the functions without a leading underscore of a module a package imports whole (rs.container.csv.load, rs.framing.line.unframe)"""
